@@ -279,8 +279,11 @@ pub fn alphabet(w: &World, r: usize, cfg: &L1Cfg) -> Vec<(String, Input)> {
         out.push(("commit vote of another epoch".into(), Input::Msg(w.signed_commit(env[0], &ov))));
     }
     if cfg.flood {
-        for v in [vmax + 5, vmax + 6, u64::MAX - 1, u64::MAX] {
-            for i in &env {
+        // the flood comes from validators holding at most f weight (here: one weight-1 validator)
+        let f = w.c.max_faulty();
+        let flooders: Vec<usize> = env.iter().copied().filter(|i| w.c.weights[*i] <= f).take(1).collect();
+        for v in [vmax + 5, vmax + 6, vmax + 7, u64::MAX - 1, u64::MAX] {
+            for i in &flooders {
                 out.push((format!("commit vote(v{v},b0 X) from v{i} [flood]"), Input::Msg(w.signed_commit(*i, &w.commit_vote(v, 0, &px)))));
                 out.push((format!("timeout vote(v{v},plain) from v{i} [flood]"), Input::Msg(w.signed_timeout(*i, &w.timeout_vote(v, None, None)))));
             }
